@@ -1,6 +1,7 @@
 """C12: serialised data paths rebuild to an equivalent path, or serialisation refuses."""
 import copy
 import json
+import pathlib
 from collections import Counter
 
 from .. import coqenc as E
@@ -40,6 +41,12 @@ def corpus_paths():
         out.append((doc, PathT([Prim("jobs"), MapT(value=cnd(Leaf("Value", "equal_to", [copy.deepcopy(m)])))], [])))
         out.append((doc, PathT([Prim("jobs"), MapT(value=cnd(Leaf("Value", "in_", [[copy.deepcopy(m), 1]])))], [])))
         out.append((doc, PathT([Prim("jobs"), MapT(value=cnd(Leaf("Value", "equal_to", [[copy.deepcopy(m)]])))], [])))
+    # types that have no name in the spec language, subclasses of nameable types included: refused, never written under another name
+    for odd in (pathlib.PosixPath, pathlib.PurePath, type(None), tuple):
+        doc = {"a": 1, "b": "x", "p": pathlib.PosixPath("x"), "t": (1, 2), "n": None}
+        out.append((doc, PathT([MapT(value=cnd(Leaf("ValueDataType", "equal_to", [odd])))], [])))
+        out.append((doc, PathT([MapT(value=cnd(Leaf("ValueDataType", "in_", [[int, odd]])))], [])))
+        out.append((doc, PathT([MapT(value=cnd(Leaf("Value", "is_instance", [str, odd])))], [])))
     return out
 
 
@@ -59,12 +66,22 @@ def run(tier, seed, model_ok, spec_ok, replay=None):
         if i < 0:
             doc, pt = corpus[i]
         for l in path_leaves(pt):
+            # a type that has no name in the spec language (not even its base class's name): refused, never written under another name
+            if ("DataType" in l.cls or l.method in ("is_instance", "keys_is_instance")) and l.args and g.r.random() < 0.12:
+                odd = g.r.choice([pathlib.PosixPath, pathlib.PurePath, type(None), tuple, complex])
+                i0 = g.r.randrange(len(l.args))
+                if isinstance(l.args[i0], type):
+                    l.args[i0] = odd
+                elif isinstance(l.args[i0], list) and l.args[i0] and all(isinstance(x, type) for x in l.args[i0]):
+                    l.args[i0] = list(l.args[i0][:-1]) + [odd]
+        for l in path_leaves(pt):
             # literal mappings / lists whose keys look like path specs or already hold the escape code, as arguments of the
             # conditions inside parts: written escaped, read back as the literal
             if l.args and l.method in ("equal_to", "not_equal_to", "in_", "not_in", "eq") and "DataType" not in l.cls \
                     and "Length" not in l.cls and g.r.random() < 0.12:
                 lit = pathy(g, 2)
                 l.args[0] = [lit, 1] if l.method in ("in_", "not_in") else lit
+        pt.warm_spec = g.r.random() < 0.4       # the base path was serialised before its modifiers were derived from it
         if g.r.random() < 0.04:
             pt.has_src, pt.src = True, g.r.choice([{"a": 1}, [1, 2], {}])
         # also: paths that come from specs (equality must then hold)
